@@ -607,12 +607,73 @@ func init() {
 		c.Enumerate("c04/bfs")
 		c.Enumerate("c04/idquality")
 		c.DFSBoth("c04/delete-race", explore.Bounds{Preempt: c.Pick(3, 5), Dev: c.Pick(1, 2)}, 1)
+		c.DFSBoth("c04/double-delete/2", explore.Bounds{Preempt: c.Pick(3, 5), Dev: 0}, 1)
+		if !c.Quick() {
+			c.DFS("c04/double-delete/3", explore.Bounds{Preempt: 3, Dev: 0, POR: true})
+		}
 	})
 }
 
 func init() {
 	RegisterScenario(&Scenario{Name: "c04/delete-race", Run: c04DeleteRace,
 		Doc: "one live session: DELETE || tools/call || GET issued concurrently (the session and stream tables are shared mutable state)"})
+}
+
+// c04DoubleDelete: two (thorough: three) DELETEs bearing the same live id are issued concurrently.
+// Exactly one ends the session (200); the others bear an already deleted id (404).
+func c04DoubleDelete(prefix []int, n int) explore.Outcome {
+	var viol []explore.Violation
+	obs := &hx.Log{}
+	res := vsched.Run(cfgFor(prefix), func() {
+		vsched.SetBranching(false)
+		w := c04New(c04Cfg{"stateful", true, true})
+		o := w.do(c04Event{"init", -1})
+		o2 := w.do(c04Event{"init", -1})
+		if o.Status != 200 || o2.Status != 200 || len(w.ids) != 2 {
+			viol = append(viol, V("harness", "init failed: %+v %+v", o, o2))
+			return
+		}
+		sid := w.ids[0]
+		vsched.SetBranching(true)
+		replies := make([]*hx.Reply, n)
+		for i := 0; i < n; i++ {
+			i := i
+			vsched.Go("delete", func() { replies[i] = w.peer.Do(http.MethodDelete, w.peer.URL, sid, nil, nil) })
+		}
+		vsched.Quiesce()
+		ok, gone := 0, 0
+		var st []int
+		for _, r := range replies {
+			if r == nil {
+				viol = append(viol, V("double-delete:hang", "a DELETE did not complete; blocked %v", vsched.LiveThreads()))
+				return
+			}
+			st = append(st, r.Status)
+			switch r.Status {
+			case 200:
+				ok++
+			case 404:
+				gone++
+			}
+		}
+		obs.Add("%v", st)
+		if ok != 1 || gone != n-1 {
+			viol = append(viol, V("double-delete:statuses", "%d concurrent DELETEs of one live session answered %v; exactly one ends the session (200), the others bear a deleted id (404)", n, st))
+		}
+		act, _ := w.srv.GetActiveSessions()
+		if len(act) != 1 || act[0] != w.ids[1] {
+			viol = append(viol, V("double-delete:live-set", "live sessions after the DELETEs: %v, expected only %s", act, w.ids[1]))
+		}
+	})
+	return finishOutcome(res, obs, viol, true)
+}
+
+func init() {
+	for _, n := range []int{2, 3} {
+		n := n
+		RegisterScenario(&Scenario{Name: fmt.Sprintf("c04/double-delete/%d", n), Run: func(p []int, m []vsched.ChoicePoint) explore.Outcome { return c04DoubleDelete(p, n) },
+			Doc: fmt.Sprintf("%d concurrent DELETEs bearing the same live session id, a second session stays", n)})
+	}
 }
 
 func c04DeleteRace(prefix []int, meta []vsched.ChoicePoint) explore.Outcome {
